@@ -202,7 +202,9 @@ def run_job(job, rec):
                     f2 = 5000 * eps * c2
                     tol_m2 = f2 * (np.abs(m2).max() + (np.abs(KAt2) @ np.abs(np.linalg.solve(J2, y - A @ m2))).max() + 1e-300)
                     es2 = abs((y - A @ m2) @ np.linalg.solve(J2, y - A @ m2)) + abs(np.linalg.slogdet(J2)[1]) + nd
-                    ok2 = not any(isinstance(v, Raised) for v in (o2, mo2, e2)) and bool(np.abs(np.asarray(o2[0]) - ref_m2).max() <= tol_m2) \
+                    # (the full path forms the mean as (posterior covariance) @ u: the covariance's entry-wise tolerance is multiplied by |u|_1, as above)
+                    tol_m2_full = tol_m2 + f2 * np.abs(K2).max() * float(np.abs(A.T @ ((y - A @ m2) / y_err**2)).sum())
+                    ok2 = not any(isinstance(v, Raised) for v in (o2, mo2, e2)) and bool(np.abs(np.asarray(o2[0]) - ref_m2).max() <= tol_m2_full) \
                         and bool(np.abs(np.asarray(mo2) - ref_m2).max() <= tol_m2) and bool(np.abs(np.asarray(o2[1]) - ref_c2).max() <= f2 * np.abs(K2).max()) \
                         and abs(float(e2) - ev2) <= f2 * es2
                     rec.check(ok2, "stale-after-in-place-update",
